@@ -135,6 +135,10 @@ def real_call(which, pts, cfg):
     c = cost_enum[cfg.get('cost', 'smape')]
     o = order_enum[cfg.get('order', 'segment')]
 
+    if cfg.get('int_dtype'):
+        # the same curve as an integer-dtype array (what the package's own tests pass); oracles stay on the float64 copy
+        pts = np.asarray(pts).astype(np.int64)
+
     def call():
         if which == 'rdp':
             return rdp.rdp(pts, t=cfg['t'], distance=d, cost=c)
@@ -199,6 +203,10 @@ def wf_failures(n, red, rem):
 def run_case(ctx, which, pts, cfg, family, site_prefix='rdp.'):
     """Real call + C01 predicate + correspondence.  Returns dict(real=…, model=…, orc=…) or None."""
     n = len(pts)
+    if 'int_dtype' not in cfg and n and np.all(pts == np.floor(pts)) and np.max(np.abs(pts)) < 2 ** 20:
+        cfg = dict(cfg, int_dtype=ctx.rng.random() < 0.3)
+        if cfg['int_dtype']:
+            ctx.tag('input:int64-dtype')
     case = dict(function=which, config=cfg, points=pts.tolist())
     site = f"{site_prefix}{which}[{cfg.get('dist','shortest')},{cfg.get('cost','-')},{cfg.get('order','-')}]"
     real = None
